@@ -202,6 +202,9 @@ use std::sync::Arc;
 
 pub(crate) use channel::channel;
 pub(crate) use executor::{executor_and_spawner, QueuingExecutor};
+/// Verification hooks (feature `crux_verif`, off by default).
+#[cfg(feature = "crux_verif")]
+pub use executor::verif_hooks as verif_executor;
 
 use crate::{command::CommandOutput, Command, Request};
 use channel::Sender;
